@@ -255,6 +255,12 @@ def _mergeable(
             node = node.parent
         return False
 
+    def _null_extended_by_later_join() -> bool:
+        """The rows of a joined derived table are NULL-extended by a RIGHT / FULL join that comes after it."""
+        joins = outer_args.get("joins") or []
+        index = next((i for i, join in enumerate(joins) if join is from_or_join), len(joins))
+        return any(join.side in ("FULL", "RIGHT") for join in joins[index + 1 :])
+
     def _literal_in_order_by(number_literal_aliases: set[str]) -> bool:
         """A numeric-literal projection under a bare ORDER BY key can't merge (would become positional)."""
         order = outer_args.get("order")
@@ -279,7 +285,7 @@ def _mergeable(
         or (
             isinstance(from_or_join, exp.Join)
             and inner_select.args.get("where")
-            and from_or_join.side in ("FULL", "LEFT", "RIGHT")
+            and (from_or_join.side in ("FULL", "LEFT", "RIGHT") or _null_extended_by_later_join())
         )
         or (
             isinstance(from_or_join, exp.From)
